@@ -3,6 +3,7 @@ package harness
 import (
 	"fmt"
 	"math/rand"
+	"strings"
 	"testing"
 	"testing/synctest"
 	"time"
@@ -22,7 +23,17 @@ const (
 // (their closures are utils.SetTimeout.func1 / utils.SetInterval.func1) that are
 // still alive in this bubble, including one parked at the tick gate.
 func timerGoroutines() int {
-	return CountGoroutines("/utils.SetTimeout.func", "/utils.SetInterval.func")
+	n := 0
+	for _, g := range GoroutinesInBubble() {
+		if !strings.Contains(g, "/utils.SetTimeout.func") && !strings.Contains(g, "/utils.SetInterval.func") {
+			continue
+		}
+		if strings.Contains(g, "timerSlowCb") {
+			continue // a goroutine that is still running the application's callback is not a leftover of the timer
+		}
+		n++
+	}
+	return n
 }
 
 type timerWorld struct {
@@ -277,8 +288,61 @@ func timerBurst(kind string, pre int, seq []bool) func(t *testing.T, rec *Rec, g
 	}
 }
 
+// timerSlowCb: the callback takes its time (it is parked inside its first run): the interval's later ticks are due all the
+// same, a cancellation issued meanwhile returns promptly, a callback may cancel or refresh its own timer.
+func timerSlowCb(kind string, variant int) func(t *testing.T, rec *Rec, g *Gates) {
+	return func(t *testing.T, rec *Rec, g *Gates) {
+		w := &timerWorld{rec: rec, g: g, pending: map[string]bool{}, unit: 5 * time.Millisecond}
+		w.kind = kind
+		w.period = 2 * w.unit
+		synctest.Wait()
+		rec.Log("create", "kind", kind, "p", int64(w.period/time.Microsecond))
+		first := true
+		fn := func() {
+			rec.Log("run")
+			if first {
+				first = false
+				switch variant {
+				case 0, 1:
+					g.at("T.cb", "")
+				case 2: // the callback cancels its own timer
+					rec.Log("stop.call", "c", "self")
+					w.tm.Stop()
+					rec.Log("stop.ret", "c", "self")
+				}
+			}
+		}
+		g.Park("T.cb", true)
+		if kind == "interval" {
+			w.tm = utils.SetInterval(fn, w.period)
+		} else {
+			w.tm = utils.SetTimeout(fn, w.period)
+		}
+		w.census()
+		for i := 0; i < 5; i++ { // two and a half periods with the first callback still running
+			time.Sleep(w.unit)
+			w.census()
+		}
+		if variant == 1 {
+			w.stopA("c1", 0) // cancelled while a callback is still running: must return at once
+		}
+		for i := 0; i < 2; i++ {
+			time.Sleep(w.unit)
+			w.census()
+		}
+		g.Park("T.cb", false)
+		g.ReleaseAll()
+		w.finish()
+	}
+}
+
 func timerScenarios(behs [][]map[string]any, seed int64, nRandom int) []Scenario {
 	var out []Scenario
+	for _, kind := range []string{"timeout", "interval"} {
+		for v := 0; v < 3; v++ {
+			out = append(out, Scenario{Name: fmt.Sprintf("slowcb_%s_%d", kind, v), Run: timerSlowCb(kind, v)})
+		}
+	}
 	for i, b := range behs {
 		out = append(out, Scenario{Name: fmt.Sprintf("beh%d", i), Run: timerReplay(b, 10*time.Millisecond)})
 	}
